@@ -120,6 +120,10 @@ func c16NewState(cfg c16Cfg) *c16State {
 	s.vc = NewIPVersionConfig(IPFamilyV4, "cali", []string{"felix-", "cali"}, []string{"felix-masq-ipam-pools", "felix-all-ipam-pools"})
 	s.k.onStep = s.onStep
 	s.k.onDestroy = s.onDestroy
+	s.k.onVanish = func(name string) {
+		delete(s.old, name)
+		s.ext(name)
+	}
 	s.k.onRestoreFail = func(created []string) {
 		for _, n := range created {
 			s.restoreLeak[n] = true
